@@ -234,6 +234,9 @@ mut("R-C15-handle-line-continues-on-quit", "C15", "io-exits",
 mut("C11-quiescence-alpha-never-raised", "C11", "alpha-is-raised", (S, "            if score > alpha {\n                alpha = score;\n            }\n        }\n\n        alpha\n", "        }\n\n        alpha\n"))
 mut("C11-get-filtered-moves-keeps-everything", "C11", "retains-by-the-predicate", (B, "        moves.retain(predicate);\n", ""))
 mut("C09-root-does-not-count-nodes", "C09", "counts-its-nodes", (S, "            self.info.nodes += 1;\n", ""))
+mut("C12-upper-bound-flag-never-chosen", "C12", "store:final", (S, "                    bound: if alpha <= alpha_start {", "                    bound: if alpha < alpha_start {"))
+mut("C01-on-board-filter-admits-rank-8", "C01", "on-board-filter", ("src/board/piece.rs", "                mv.start.rank < 8\n", "                mv.start.rank <= 8\n"))
+mut("C01-on-board-filter-or-instead-of-and", "C01", "on-board-filter", ("src/board/piece.rs", "                    && mv.dest.rank < 8\n", "                    || mv.dest.rank < 8\n"))
 # ---- the plain generators and the bit iteration underneath them
 mut("C01-knight-cannot-capture", "C01", "generators:Knight", ("src/board/piece/knight.rs", "        let move_mask = Self::get_attacks(square) & !same_pieces;", "        let move_mask = Self::get_attacks(square) & !board.bitboards.all_pieces;"))
 mut("C01-bishop-black-own-is-white", "C01", "generators:Bishop:Black", ("src/board/piece/bishop.rs", "            Color::Black => board.bitboards.black_pieces,", "            Color::Black => board.bitboards.white_pieces,"))
